@@ -132,6 +132,33 @@ func (g *c09Gen) genMisc() {
 		g.addSimple(fmt.Sprintf("k%d", i), "interface embedding: "+k.name, []string{"fmt"}, base+k.idecl, c09Tag(sites, k.name))
 	}
 
+	// ---- interfaces embedding interfaces, second part: explicit methods whose names sort before, after and on both
+	// sides of the embedded methods and whose signatures differ from theirs (the emulated interface stores one
+	// closure per method: an order mismatch between the closures and the sorted method set swaps methods — invisible
+	// when the swapped methods have the same signature and are both called)
+	base2 := "type T0@ struct{ V0 int }\nfunc (t T0@) M() int { return 100 + t.V0 }\nfunc (t T0@) N(x int) int { return x + t.V0 }\n" +
+		"func (t T0@) A() string { return \"a\" }\nfunc (t T0@) Ma() string { return \"ma\" }\nfunc (t T0@) Z() string { return \"z\" }\nfunc (t *T0@) Y() bool {\nt.V0++\nreturn true\n}\n" +
+		"type I@ interface{ M() int }\ntype I2@ interface {\nM() int\nN(int) int\n}\n"
+	for i, k := range []struct{ name, idecl, calls string }{
+		{"explicit-after", "type R@ interface {\nI@\nZ() string\n}\n", "r.M(), r.Z()"},
+		{"explicit-before", "type R@ interface {\nI@\nA() string\n}\n", "r.A(), r.M()"},
+		{"explicit-both-sides", "type R@ interface {\nZ() string\nI@\nA() string\n}\n", "r.A(), r.M(), r.Z()"},
+		{"explicit-between", "type R@ interface {\nI2@\nMa() string\n}\n", "r.M(), r.Ma(), r.N(5)"},
+		{"two-embedded-methods+explicit-after", "type R@ interface {\nI2@\nZ() string\nY() bool\n}\n", "r.M(), r.N(5), r.Y(), r.Z()"},
+	} {
+		sites := []c09Site{
+			{"iface-embed2|R=pv-call-all", "", false, pre + "var r R@ = pv\nO(" + k.calls + ")"},
+			{"iface-embed2|R=pv-call-last-only", "", false, pre + "var r R@ = pv\nO(" + k.calls[strings.LastIndex(k.calls, " ")+1:] + ")"},
+			{"iface-embed2|R-methodvalue", "", false, pre + "var r R@ = pv\nf := r.M\nO(f())"},
+			{"iface-embed2|R-assert-back", "", false, pre + "var r R@ = pv\nw, ok := r.(*T0@)\nO(ok, w == pv)"},
+			{"iface-embed2|R-param", "", false, pre + "f := func(r R@) int { return r.M() }\nO(f(pv))"},
+		}
+		if !strings.Contains(k.calls, "r.Y()") {
+			sites = append(sites, c09Site{"iface-embed2|R=v-call-all", "", false, pre + "var r R@ = v\nO(" + k.calls + ")"})
+		}
+		g.addSimple(fmt.Sprintf("kz%d", i), "interface embedding, method order: "+k.name, nil, base2+k.idecl, c09Tag(sites, k.name))
+	}
+
 	// ---- structs embedding interfaces and named non-struct types
 	edecl := "type I@ interface{ M() int }\ntype J@ interface {\nM() int\nP() int\n}\n" +
 		"type A@ struct{ V int }\nfunc (a A@) M() int { return 100 + a.V }\n" +
